@@ -46,8 +46,21 @@ def check(ctx: Ctx, ev: Evidence) -> list[Finding]:
                     ev.inst("C14-R1", f"{fi.qualname} | {norm(n)[:90]}", "ok" if ok else "violation", loc(fi, n))
                     if not ok:
                         out.append(Finding("C14-R1", f"{fi.qualname} | {norm(n)[:90]}", f"declared condition {s} is not a key of the default fault-handler table", loc(fi, n)))
-    if n_sites < 8:
-        raise AnalysisError(f"C14-R1 found only {n_sites} fault declaration sites with a literal condition")
+    # semantic companion: every condition that reaches a fault callback on any ATS edge is a key of the table
+    declared: dict[str, str] = {}
+    for which in ("source", "dest"):
+        a0 = ctx.ats(which)
+        for e in a0.edges:
+            for x in e.ev:
+                if x.kind == "env" and x.name.startswith("fault."):
+                    declared.setdefault(ename(x.args[1]), x.site)
+    for cond, site in sorted(declared.items()):
+        ok = cond in keys or cond == "$OTHER"
+        ev.inst("C14-R1", f"condition {cond} reaches a fault callback", "ok" if ok else "violation", site)
+        if not ok:
+            out.append(Finding("C14-R1", f"condition {cond} declared but not in the default table", f"the handlers declare {cond}, which is not a key of the default fault-handler table", site))
+    if n_sites + len(declared) < 8:
+        raise AnalysisError(f"C14-R1 found only {n_sites} literal declaration sites and {len(declared)} declared conditions")
     sa = Standalone(prog)
     fhq = "cfdppy.mib.DefaultFaultHandlerBase"
     if fhq not in prog.classes:
